@@ -260,6 +260,7 @@ package stage
 //@   before call os.Rename assert only-complete-partials-are-renamed: called(isCompanionComplete) && lastret(isCompanionComplete, 0) && lastarg(isCompanionComplete, 0) == cmp && arg1 == base+fullExt && ((ncalls(os.Stat) == 3 && arg0 == base+partExt && !os.IsNotExist(lastret(os.Stat, 1))) || (ncalls(os.Stat) == 4 && arg0 == base && !os.IsNotExist(lastret(os.Stat, 1))))
 //@   before call os.Remove assert orphan-companion-only: arg0 == path && ncalls(os.Stat) == 4 && os.IsNotExist(lastret(os.Stat, 1)) && os.IsNotExist(prevret(os.Stat, 1, 1)) && os.IsNotExist(prevret(os.Stat, 2, 1)) && os.IsNotExist(prevret(os.Stat, 3, 1)) && lastarg(os.Stat, 0) == base && prevarg(os.Stat, 1, 0) == base+partExt && prevarg(os.Stat, 2, 0) == base+fullExt && prevarg(os.Stat, 3, 0) == base+waitExt
 //@   before go (*Stage).finalizeQueue assert recovered-wait-bodies-are-validated: called((*Stage).toCache) && lastarg((*Stage).toCache, 2) == stateValidated && arg1 == lastarg((*Stage).toCache, 1)
+//@   before go (*Stage).finalizeQueue assert validated-bodies-are-queued-before-revalidation-starts: !called((*sync.WaitGroup).Add)
 //@   forbid call (*Stage).finalize label no-direct-finalize
 //@   forbid call (*Stage).putFileAway label no-direct-delivery
 //@   forbid call (*Stage).processQueue label validation-ends-before-ready
